@@ -23,6 +23,19 @@ Definition node_ledger_ok (n : onode) : bool :=
 
 Definition nodes_ledger_ok (s : ostate) : bool := forallb node_ledger_ok (s_nodes s).
 
+(* window of known finding C01-foreign-moved: a foreign allocation update that names another node than the one
+   the allocation lives on is stored on that node without accounting. The ledger is judged without the foreign
+   allocations for which the partition's foreign map has no entry on this node. *)
+Definition foreign_owned_here (s : ostate) (n : onode) (x : oalloc) : bool :=
+  match find_alloc (s_foreign s) (oa_key x) with
+  | Some f => oa_node f =? on_id n
+  | None => false
+  end.
+Definition node_ledger_ok_known (s : ostate) (n : onode) : bool :=
+  negb (forallb (foreign_owned_here s n) (on_foreign n)) &&
+  node_ledger_ok (mkON (on_id n) (on_total n) (on_occupied n) (on_allocated n) (on_available n) (on_sched n)
+                       (on_allocs n) (filter (foreign_owned_here s n) (on_foreign n)) (on_reservations n)).
+
 (* ask r fits in what is free on n (negative free counts as 0, a type the node lacks as 0) *)
 Definition fits_free (n : onode) (r : res) : bool :=
   forallb (fun kv => (snd kv <=? Z.max 0 (node_free n (fst kv)))%Z) r.
